@@ -103,8 +103,26 @@ def make_spec(prog, rng, be):
     else:
         top = "\n%{\n" + TOP_C + "#define tok(r) emit_tok(r, yytext, (int) yyleng)\n#define yyecho() tok(%d)\n%%}\n" % (nrules + 1)
         main = MAIN_C
-    actions = {i: "tok(%d); return 1;" % (i + 1) for i in range(nrules)}
-    text = scanner.make_spec(prog, rng, options=(["case-insensitive"] if prog.get('caseins') else []), actions=actions, prologue=top,
+    # per-instance state beyond the input position: text kept by yymore() across calls, yyless(), %array, yylineno
+    feat = rng.fork("feat")
+    use_more = feat.chance(50)
+    more = "yymore(yyscanner);" if be == 'c99' else "yymore();"
+    actions = {}
+    for i in range(nrules):
+        a = "tok(%d);" % (i + 1)
+        if use_more and feat.chance(40):
+            a += " " + more                    # (the request is pending when this call returns: another instance may run in between)
+        elif feat.chance(15) and be != 'c99':
+            a += " if (yyleng > 1) yyless(1);"
+        actions[i] = a + " return 1;"
+    options = (["case-insensitive"] if prog.get('caseins') else [])
+    if use_more and be == 'c99':
+        options.append("yymore")
+    if feat.chance(30) and be != 'cxx':
+        options.append("array")
+    if feat.chance(40):
+        options.append("yylineno")
+    text = scanner.make_spec(prog, rng, options=options, actions=actions, prologue=top,
                              epilogue=main, backend=be)
     if be == 'c99':
         # the c99 back end has no yyecho macro to override: a catch-all rule makes the default rule unreachable
